@@ -92,9 +92,26 @@ func solveUnit(u *Unit, cfg *SolverCfg, only func(*Obligation) bool) {
 		return
 	}
 	sc.timeoutMs = cfg.TimeoutS * 1000
+	sc.skip = nil
+	nRun := len(sc.obs)
+	if only != nil {
+		sc.skip = func(ob *Obligation) bool { return !only(ob) }
+		nRun = 0
+		for _, ob := range sc.obs {
+			if only(ob) {
+				nRun++
+			}
+		}
+	}
+	if nRun == 0 {
+		for _, ob := range sc.obs {
+			ob.Result = "skipped"
+		}
+		return
+	}
 	inc := sc.renderIncremental()
 	f := tmpFile(cfg, inc)
-	out, dt := runSolverN(solvers[0], f, cfg.TimeoutS, len(sc.obs))
+	out, dt := runSolverN(solvers[0], f, cfg.TimeoutS, nRun)
 	os.Remove(f)
 	var results []string
 	for _, l := range strings.Split(out, "\n") {
@@ -113,21 +130,33 @@ func solveUnit(u *Unit, cfg *SolverCfg, only func(*Obligation) bool) {
 			break
 		}
 	}
-	per := dt / float64(len(sc.obs))
+	per := dt / float64(nRun)
+	// results come back for the obligations that were run, in order
+	resOf := map[*Obligation]string{}
+	ri := 0
+	for _, ob := range sc.obs {
+		if sc.skip != nil && sc.skip(ob) {
+			resOf[ob] = "skipped"
+			continue
+		}
+		if ri < len(results) {
+			resOf[ob] = results[ri]
+		} else {
+			resOf[ob] = "error"
+		}
+		ri++
+	}
 	// obligations whose known-class-excluded variant is discharged need no portfolio run
 	weakOK := map[string]bool{}
-	for i, ob := range sc.obs {
-		if ob.WeakOf != "" && i < len(results) && results[i] == "unsat" {
+	for _, ob := range sc.obs {
+		if ob.WeakOf != "" && resOf[ob] == "unsat" {
 			weakOK[ob.WeakOf] = true
 		}
 	}
 	var wg sync.WaitGroup
 	sem := make(chan struct{}, 4)
-	for i, ob := range sc.obs {
-		r := "error"
-		if i < len(results) {
-			r = results[i]
-		}
+	for _, ob := range sc.obs {
+		r := resOf[ob]
 		ob.Result, ob.Solver, ob.TimeS = r, solvers[0].name, per
 		if only != nil && !only(ob) {
 			continue
